@@ -237,6 +237,9 @@ pub broadcast axiom fn axiom_uri_str_eq_obeys()
 pub broadcast axiom fn axiom_uri_str_eq_spec(a: Uri, b: &str)
     ensures #[trigger] a.eq_spec(&b) == (a.text() == b@);
 pub broadcast group axiom_uri_str_eq { axiom_uri_str_eq_obeys, axiom_uri_str_eq_spec }
+/// `http::uri::InvalidUri`: the error of parsing a URI component
+#[verifier::external_body]
+pub struct InvalidUri { _p: () }
 #[verifier::external_body]
 pub struct InvalidUriParts { _p: () }
 impl std::fmt::Debug for InvalidUriParts {
@@ -323,11 +326,17 @@ pub broadcast axiom fn axiom_request_ext<B>(a: Request<B>, b: Request<B>)
     ensures #[trigger] a.version_s() == #[trigger] b.version_s() && a.method_s() == b.method_s() && a.uri_s() == b.uri_s()
         && a.headers_s() == b.headers_s() && a.ext_s() == b.ext_s() && a.rest_s() == b.rest_s() ==> a == b;
 
+// ---- http::Response<B>: opaque ----
+#[verifier::external_body]
+#[verifier::reject_recursive_types(B)]
+pub struct Response<B> { _p: std::marker::PhantomData<B> }
+
 // ---- stand-in module tree (paths as written in /repo) ----
 pub mod http {
     pub use super::{Version, Method, Uri, Request, HeaderMap, HeaderName, HeaderValue, Extensions};
+    pub use super::Response;
     pub mod uri {
-        pub use super::super::{Scheme, Authority, PathAndQuery, InvalidUriParts};
+        pub use super::super::{Scheme, Authority, PathAndQuery, InvalidUriParts, InvalidUri};
         pub use super::super::UriParts as Parts;
     }
     pub mod request {
